@@ -221,13 +221,21 @@ func rulesC16(c *Ctx) {
 		c.Unk("C16.separator", "(*Parser).ParseQuery: separator flag", pq.Pos(), "no boolean loop variable found")
 		return
 	}
-	// initial value
+	// initial value: whatever the flag starts as is the "a statement may
+	// follow" state (the name and polarity of the flag are the code's choice)
+	open, haveInit := false, false
 	for i, e := range semi.Edges {
 		if semi.Block().Preds[i].Index == 0 {
-			k, ok := e.(*ssa.Const)
-			c.Check(ok && k.Value != nil && constant.BoolVal(k.Value), "C16.separator", "(*Parser).ParseQuery: flag starts set", semi.Pos(), "the first statement needs no separator in front of it")
+			if k, ok := e.(*ssa.Const); ok && k.Value != nil {
+				open, haveInit = constant.BoolVal(k.Value), true
+			}
 		}
 	}
+	if !haveInit {
+		c.Unk("C16.separator", "(*Parser).ParseQuery: separator flag", pq.Pos(), "the loop flag has no constant initial value")
+		return
+	}
+	c.OK("C16.separator", "(*Parser).ParseQuery: flag starts set", semi.Pos(), fmt.Sprintf("initial state %v is taken as `a statement may follow`; the scenarios below decide that it does", open))
 	var unscan, parseStmt *ssa.Call
 	for _, b := range pq.Blocks {
 		for _, in := range b.Instrs {
@@ -286,21 +294,24 @@ func rulesC16(c *Ctx) {
 		}
 		return
 	}
+	openS, closedS := fmt.Sprint(open), fmt.Sprint(!open)
 	for _, flag := range []bool{true, false} {
+		name := map[bool]string{true: "separator seen", false: "statement just parsed"}[flag == open]
 		_, rets := run("EOF", flag)
 		ok := len(rets) == 1 && rets[0].Results[1].nilc && !rets[0].Results[0].nilc
-		c.Check(ok, "C16.separator", fmt.Sprintf("(*Parser).ParseQuery: EOF, flag=%v", flag), pq.Pos(), "end of input must return the collected statements with no error")
+		c.Check(ok, "C16.separator", fmt.Sprintf("(*Parser).ParseQuery: EOF, %s", name), pq.Pos(), "end of input must return the collected statements with no error")
 		r, rets := run("SEMICOLON", flag)
 		nf := nextFlag(r)
-		c.Check(len(rets) == 0 && len(nf) == 1 && nf["true"], "C16.separator", fmt.Sprintf("(*Parser).ParseQuery: `;`, flag=%v", flag), pq.Pos(), fmt.Sprintf("a separator must only set the flag and continue (returns=%d, next flag=%v)", len(rets), nf))
+		good := len(rets) == 0 && len(nf) == 1 && (nf[openS] || (nf["unchanged"] && flag == open))
+		c.Check(good, "C16.separator", fmt.Sprintf("(*Parser).ParseQuery: `;`, %s", name), pq.Pos(), fmt.Sprintf("a separator must only put the loop into the `statement may follow` state and continue (returns=%d, next flag=%v, want %s)", len(rets), nf, openS))
 	}
 	{
-		r, rets := run("SELECT", false)
+		r, rets := run("SELECT", !open)
 		ok := len(rets) == 1 && rets[0].Results[0].nilc && (parseStmt == nil || !r.execB[parseStmt.Block().Index])
 		c.Check(ok, "C16.separator", "(*Parser).ParseQuery: statement without separator", pq.Pos(), "a second statement with no `;` in between must be an error")
 	}
 	{
-		r, rets := run("SELECT", true)
+		r, rets := run("SELECT", open)
 		nf := nextFlag(r)
 		okParse := parseStmt != nil && unscan != nil && r.execB[parseStmt.Block().Index] && r.execB[unscan.Block().Index]
 		before := false
@@ -317,7 +328,7 @@ func rulesC16(c *Ctx) {
 			before = unscan.Block().Dominates(parseStmt.Block())
 		}
 		c.Check(okParse && before, "C16.separator", "(*Parser).ParseQuery: statement is parsed from its own first token", pq.Pos(), "the peeked token must be pushed back before the statement parser runs")
-		c.Check(len(rets) == 0 && len(nf) == 1 && nf["false"], "C16.separator", "(*Parser).ParseQuery: flag cleared after a statement", pq.Pos(), fmt.Sprintf("after a statement the next one needs a separator (returns=%d, next flag=%v)", len(rets), nf))
+		c.Check(len(rets) == 0 && len(nf) == 1 && nf[closedS], "C16.separator", "(*Parser).ParseQuery: flag cleared after a statement", pq.Pos(), fmt.Sprintf("after a statement the next one needs a separator (returns=%d, next flag=%v, want %s)", len(rets), nf, closedS))
 	}
 	_ = token.EQL
 }
